@@ -110,6 +110,17 @@ def verify_function(w: World, relpath: str, qualname: str, contract: Contract) -
             _run(ex, w, src, contract, res)
             res.obligations = ex.obligations
             res.trusted_used = ex.trusted_used
+            for fc in contract.focus:
+                ex2 = Executor(w, module, src.node, qualname, contract, relpath)
+                ex2.closure_globals = _closure_globals(w, module, src)
+                ex2.prune = True
+                res2 = FunctionResult(contract, src)
+                _run(ex2, w, src, contract, res2, focus=fc)
+                for o in ex2.obligations:
+                    o.id = f"{o.id}[{fc['label']}]"
+                    o.note = f"[under: {fc['assume']}] {o.note}"
+                res.obligations.extend(ex2.obligations)
+                res.trusted_used |= ex2.trusted_used
         if w.axioms:
             for o in res.obligations:
                 o.pc = list(w.axioms) + list(o.pc)
@@ -155,7 +166,14 @@ def _closure_globals(w, module, src):
     return {}
 
 
-def _run(ex: Executor, w: World, src: FunctionSource, contract: Contract, res: FunctionResult, case=None):
+def _focused(contract, eid):
+    for fc in contract.focus:
+        if any(eid.startswith(p) for p in fc["only"]):
+            return fc
+    return None
+
+
+def _run(ex: Executor, w: World, src: FunctionSource, contract: Contract, res: FunctionResult, case=None, focus=None):
     fn = src.node
     st, bind = init_state(ex, contract, fn, case)
     if case is not None:
@@ -165,10 +183,17 @@ def _run(ex: Executor, w: World, src: FunctionSource, contract: Contract, res: F
         # the precondition talks about the entry state (old == current); facts recorded while evaluating it stay
         ctx = SpecCtx(ex, old=st, cur=st, names=dict(bind))
         st.assume(ctx.eval_bool(r))
+    if focus is not None:
+        ctx = SpecCtx(ex, old=st, cur=st, names=dict(bind))
+        st.assume(ctx.eval_bool(focus["assume"]))
     pre = st.fork()
     ex.pre_state = pre
     ex.frames.append([])
     ex.exec_block(fn.body, st)
+    if focus is not None:
+        # a focus run proves its own postconditions only (everything else belongs to the general run); obligations raised
+        # while executing the body (callee preconditions, safety) are the general run's as well
+        ex.obligations = []
     outs = ex.frames.pop()
     finals: list[Outcome] = []
     if not ex.dead(st):
@@ -215,13 +240,28 @@ def _run(ex: Executor, w: World, src: FunctionSource, contract: Contract, res: F
         if o.kind == "return":
             rv = o.val if o.val is not None else Val(NONE, NoneType)
             names["result"] = rv
-            if contract.result is not None and repr(contract.result) != repr(rv.ty):
+            if focus is None and contract.result is not None and repr(contract.result) != repr(rv.ty):
                 ex.oblige(s, ex.type_pred(rv.t, contract.result), f"post.result_type.{idx}", "post", fn, f"result has type {T.tname(contract.result)}")
             # postconditions are proved in order; an earlier one may be used as a lemma for the later ones
             # (recorded in .depends: a dependent verdict only counts if its lemmas are discharged)
             s_acc = s.fork()
             deps = []
             for eid, es in contract.ensures.items():
+                fc = _focused(contract, eid)
+                if focus is not None:
+                    if fc is not focus:
+                        continue
+                    ctx = SpecCtx(ex, old=pre, cur=s, names=names)
+                    ex.oblige(s, ctx.eval_bool(es), f"{eid}.r{idx}", "post", fn, es)
+                    continue
+                if fc is not None:
+                    # general run: the part of the entry states the focus run does not cover; not used as a lemma here
+                    s_out = s.fork()
+                    ctxa = SpecCtx(ex, old=pre, cur=pre, names=dict(bind))
+                    s_out.assume(z3.Not(ctxa.eval_bool(fc["assume"])))
+                    ctx = SpecCtx(ex, old=pre, cur=s_out, names=names)
+                    ex.oblige(s_out, ctx.eval_bool(es), f"{eid}.outside.r{idx}", "post", fn, f"[when not: {fc['assume']}] {es}")
+                    continue
                 ctx = SpecCtx(ex, old=pre, cur=s_acc, names=names)
                 g = ctx.eval_bool(es)
                 n_before = len(ex.obligations)
@@ -230,6 +270,8 @@ def _run(ex: Executor, w: World, src: FunctionSource, contract: Contract, res: F
                     ex.obligations[-1].depends = list(deps)
                     deps.append(ex.obligations[-1].id)
                 s_acc.assume(g)
+            if focus is not None:
+                continue
             for ec, spec in raises.items():
                 when = spec.get("when")
                 if when is not None and spec.get("iff", True):
@@ -237,6 +279,8 @@ def _run(ex: Executor, w: World, src: FunctionSource, contract: Contract, res: F
                     ex.oblige(s, z3.Not(ctx.eval_bool(when)), f"raises.{ec.__name__}.must.r{idx}", "post", fn, f"must raise {ec.__name__} when: {when}")
             _frame(ex, contract, pre, s, bind, f"r{idx}", fn)
         else:
+            if focus is not None:
+                continue
             exc = o.val
             names["exc"] = exc
             allowed = []
